@@ -1480,7 +1480,7 @@ func bucket(n int) string {
 func TestC12(t *testing.T) {
 	r := mon.Start(t, "C12")
 	defer r.Finish()
-	r.Rule("case = one fasthttp.Server (Concurrency 1-4, MaxConnsPerIP 1-3 or off, ReduceMemoryUsage/KeepHijackedConns varied) used through Serve(in-memory listener) or through ServeConn from one goroutine per connection, hit by 8-64 client goroutines from 2-3 fake IPv4 addresses with seeded behaviours (1-3 sequential requests, gated request, pipelined pair, idle, partial request, hijack held on a gate, garbage, abort; every fifth server-side conn reports an error from Close, and any second Close of a socket reports one, as a real socket does) and seeded gate-opening order (one gate may open before the arrivals, the others only after every connection was accepted); a third of the Serve-mode cases end with Server.Shutdown() while 1..Concurrency keep-alive connections (one request served) are idle, with one gate opened only after Shutdown was called; half of the other Serve-mode cases are two-burst cases (MaxIdleWorkerDuration 20-50 ms; once the first workload is over and the counters read zero the running Serve loop idles for 4-6 durations so that the cleaner retires the workers, then Concurrency+1..5 connections arrive whose handlers are held on a gate of their own until all of them were accepted); a third of all cases are TLS cases (a NextProto handler for ALPN proto-x is registered; connections are a mix of plain HTTP/1, HTTP/1 over TLS and proto-x over TLS on the same Server - tls.Server over the in-memory conn in the listener, or *tls.Conn handed to ServeConn; also plain garbage sent to a TLS server side), a third set Read/WriteTimeout to 1h with Set*Deadline failing on every eighth connection (early-return paths), half of the ServeConn cases use Concurrency 1-2 with MaxConnsPerIP 1; after quiescence one probe connection per IP must be admitted on a new Serve cycle of the same Server (or through ServeConn); 4 cases run concurrently under one seeded sched.Perturber (wp.*, srv.* hook points). distinct = feature vector (mode, Concurrency, MaxConnsPerIP, client-count bucket, buckets of 503/429/hijack counts, handler peak reached Concurrency, per-IP peak reached the limit); non-trivial = at least one connection was rejected or a limit was reached")
+	r.Rule("case = one fasthttp.Server (Concurrency 1-4, MaxConnsPerIP 1-3 or off, ReduceMemoryUsage/KeepHijackedConns varied) used through Serve(in-memory listener) or through ServeConn from one goroutine per connection, hit by 8-64 client goroutines from 2-3 fake IPv4 addresses with seeded behaviours (1-3 sequential requests, gated request, pipelined pair, idle, partial request, hijack held on a gate, garbage, abort; every fifth server-side conn reports an error from Close, and any second Close of a socket reports one, as a real socket does) and seeded gate-opening order (one gate may open before the arrivals, the others only after every connection was accepted); a third of the Serve-mode cases end with Server.Shutdown() while 1..Concurrency keep-alive connections (one request served) are idle, with one gate opened only after Shutdown was called; half of the other Serve-mode cases are two-burst cases (MaxIdleWorkerDuration 20-50 ms; once the first workload is over and the counters read zero the running Serve loop idles for 4-6 durations so that the cleaner retires the workers, then Concurrency+1..5 connections arrive whose handlers are held on a gate of their own until all of them were accepted); a third of all cases are TLS cases (a NextProto handler for ALPN proto-x is registered; connections are a mix of plain HTTP/1, HTTP/1 over TLS and proto-x over TLS on the same Server - tls.Server over the in-memory conn in the listener, or *tls.Conn handed to ServeConn; also plain garbage sent to a TLS server side), a third set Read/WriteTimeout to 1h with Set*Deadline failing on every eighth connection (early-return paths), half of the ServeConn cases use Concurrency 1-2 with MaxConnsPerIP 1; after quiescence one probe connection per IP must be admitted on a new Serve cycle of the same Server (or through ServeConn); 4 cases run concurrently under one seeded sched.Perturber (wp.*, srv.* hook points). After these cases: 3000 (thorough 60000) cheap simultaneous-admission rounds - a Server with Concurrency 1-3 (re-used for up to 8 rounds), Concurrency-1 connections held by a gated handler, then 4-8 goroutines released together from a spin barrier each calling ServeConn with a request already written; judged once every caller is inside the handler or back with ErrConcurrencyLimit. distinct = feature vector (mode, Concurrency, MaxConnsPerIP, client-count bucket, buckets of 503/429/hijack counts, handler peak reached Concurrency, per-IP peak reached the limit); non-trivial = at least one connection was rejected or a limit was reached")
 	r.Assume("gauges are lower bounds of what the server holds: a connection counts from the server's first Read on it until the server's Close (both inside the worker / ServeConn hold and inside the per-IP registration); handlers are a subset; hijacked connections leave the Concurrency gauge when their handler returns and the per-IP gauge only when the server closes them")
 	r.Assume("spurious rejections (503/429 although a slot was free, possible because tryAcquireConcurrency and Register over-count transiently) are not judged: the property only bounds from above")
 	r.Assume("one Server is used either through one Serve call or through ServeConn, not both at once and not with two listeners (each Serve call has its own pool of Concurrency workers and does not consult the shared counter): mixed use is excluded as caller-defined")
@@ -1672,6 +1672,11 @@ func TestC12(t *testing.T) {
 			}
 		}
 	}
+	// simultaneous admission rounds (no hook installed: the racers themselves make the schedule)
+	nAdm := r.N(3000, 60000)
+	if !aborted {
+		runAdmission(r, nAdm)
+	}
 	r.Set("hook_hits", hits)
 	r.Set("run_cut_short", aborted)
 	r.Set("slowest_case_ms", slowest)
@@ -1699,6 +1704,9 @@ func TestC12(t *testing.T) {
 		r.Require("idle_keepalive_conns_at_shutdown", n/12)
 		r.Require("server_side_close_errors", n)
 		r.Require("probe_conns_admitted", n)
+		r.Require("admission_rounds", nAdm)
+		r.Require("admission_rejected_503", nAdm*3)
+		r.Require("admission_rounds_all_slots_taken", nAdm/2)
 		r.Require("two_burst_cases", n/12)
 		r.Require("tls_cases_serve", n/12)
 		r.Require("tls_cases_serveconn", n/12)
